@@ -1,0 +1,81 @@
+//! Verification hook (cargo feature `zvt_verif`, off by default).
+//!
+//! Replaces the TCP socket used by the reconnecting stream with an in-memory
+//! connector, so that a simulated terminal and tokio's paused clock can drive
+//! the real client deterministically. Nothing in here is compiled unless the
+//! feature is enabled.
+use std::future::Future;
+use std::io;
+use std::net::SocketAddr;
+use std::pin::Pin;
+use std::sync::{Arc, Mutex};
+use std::task::{Context, Poll};
+use tokio::io::{AsyncRead, AsyncWrite, ReadBuf};
+
+/// Anything which can play the role of the socket.
+pub trait Duplex: AsyncRead + AsyncWrite + Unpin + Send {}
+impl<T: AsyncRead + AsyncWrite + Unpin + Send> Duplex for T {}
+
+pub type ConnectFuture = Pin<Box<dyn Future<Output = io::Result<Box<dyn Duplex>>> + Send>>;
+
+/// Factory for connections - the stand-in for the network.
+pub trait Connector: Send + Sync {
+    fn connect(&self, addr: SocketAddr) -> ConnectFuture;
+}
+
+static CONNECTOR: Mutex<Option<Arc<dyn Connector>>> = Mutex::new(None);
+
+/// Installs the connector used by all subsequent connection attempts.
+pub fn set_connector(connector: Arc<dyn Connector>) {
+    *CONNECTOR.lock().unwrap() = Some(connector);
+}
+
+/// Drop-in for [tokio::net::TcpStream].
+pub struct VerifStream(Box<dyn Duplex>);
+
+impl VerifStream {
+    /// The same signature as [tokio::net::TcpStream::connect].
+    pub async fn connect<A>(addr: A) -> io::Result<Self>
+    where
+        A: tokio::net::ToSocketAddrs,
+    {
+        let addr = tokio::net::lookup_host(addr)
+            .await?
+            .next()
+            .ok_or_else(|| io::Error::new(io::ErrorKind::InvalidInput, "no address"))?;
+        let connector = CONNECTOR
+            .lock()
+            .unwrap()
+            .clone()
+            .ok_or_else(|| io::Error::new(io::ErrorKind::NotConnected, "no connector"))?;
+        Ok(Self(connector.connect(addr).await?))
+    }
+}
+
+impl AsyncRead for VerifStream {
+    fn poll_read(
+        mut self: Pin<&mut Self>,
+        cx: &mut Context<'_>,
+        buf: &mut ReadBuf<'_>,
+    ) -> Poll<io::Result<()>> {
+        Pin::new(&mut self.0).poll_read(cx, buf)
+    }
+}
+
+impl AsyncWrite for VerifStream {
+    fn poll_write(
+        mut self: Pin<&mut Self>,
+        cx: &mut Context<'_>,
+        buf: &[u8],
+    ) -> Poll<io::Result<usize>> {
+        Pin::new(&mut self.0).poll_write(cx, buf)
+    }
+
+    fn poll_flush(mut self: Pin<&mut Self>, cx: &mut Context<'_>) -> Poll<io::Result<()>> {
+        Pin::new(&mut self.0).poll_flush(cx)
+    }
+
+    fn poll_shutdown(mut self: Pin<&mut Self>, cx: &mut Context<'_>) -> Poll<io::Result<()>> {
+        Pin::new(&mut self.0).poll_shutdown(cx)
+    }
+}
